@@ -8,7 +8,7 @@
    theorems.json). *)
 From Coq Require Import SpecFloat.
 Require Import Base Value Float PrintOptions ParseOptions Reader Scan Num Parser DatumProofs DepthProofs.
-Require Import ReaderProofs TokenProofs RoundtripProofs TriviaProofs ElispRoundtrip ElispTrivia.
+Require Import ReaderProofs TokenProofs RoundtripProofs TriviaProofs ElispRoundtrip ElispTrivia PositionProofs SpanProofs.
 
 (* value_iter().next() and Iterator for Parser are next_value().transpose(),
    datum_iter().next() is next_datum().transpose(): in the model these are
@@ -172,6 +172,27 @@ Proof.
   split; [reflexivity|]. split; [vm_compute; reflexivity|].
   intros k; destruct k; vm_compute; reflexivity.
 Qed.
+
+(* Each successful item consumes input: a call that returns a value leaves the
+   reader strictly further in the input than it found it (for every input,
+   option set, source kind and fuel; inv W is the position invariant of C19,
+   which holds initially and which the call re-establishes, so the statement
+   chains over any sequence of calls). Since positions are positions of
+   prefixes of the input, a finite input admits only finitely many successful
+   items. *)
+Theorem C12_items_consume_input : forall W ro alpha fast std_parse fuel s, inv W (rd s) ->
+  match next_value ro alpha fast std_parse fuel s with
+  | (POk (Some v), s') => inv W (rd s') /\ pos_lt (rpos (rd s)) (rpos (rd s'))
+  | (POk None, s') => inv W (rd s')
+  | (PErr _, _) => True
+  end.
+Proof.
+  intros W ro alpha fast std_parse fuel s Hi.
+  rewrite (proj1 (agreement ro alpha fast std_parse fuel) s). unfold pmap.
+  pose proof (next_datum_progress W ro alpha fast std_parse fuel s Hi) as H.
+  destruct (next_datum ro alpha fast std_parse fuel s) as [[[d|]|e] s1]; cbn [fst snd option_map]; exact H.
+Qed.
+Print Assumptions C12_items_consume_input.
 
 (* An unexpected closer is consumed when it is reported, so iteration moves on. *)
 Example C12_closer_consumed :
